@@ -45,6 +45,22 @@ class QuantumGate(Box):
             self.name, len(self.dom), self.array, data=self.data,
             _dagger=None if self._dagger is None else not self._dagger)
 
+    def subs(self, *args):
+        if not self.free_symbols:
+            return self
+        return QuantumGate(
+            self.name, len(self.dom), self.array,
+            data=rsubs(self.data, *args), _dagger=self._dagger)
+
+    def lambdify(self, *symbols, **kwargs):
+        if not self.free_symbols:
+            return lambda *xs: self
+        from sympy import lambdify
+        return lambda *xs: QuantumGate(
+            self.name, len(self.dom), self.array,
+            data=lambdify(symbols, self.data, **kwargs)(*xs),
+            _dagger=self._dagger)
+
 
 class ClassicalGate(Box):
     """
